@@ -121,7 +121,7 @@ HdrFields == {"pow", "bits", "time"}
 NoTxFields == AllFields \ {"ltx", "ntx", "witdata", "weight"}
 
 PlainBits == {"harder", "above", "neg", "zero", "ovf"}
-RtBits    == PlainBits \cup {"parent", "limit", "unclamped", "otherbase", "walk"}
+RtBits    == PlainBits \cup {"parent", "limit", "unclamped", "minclamp", "maxclamp", "otherbase", "walk"}
 PlainTime == {"mtp", "mtp+1", "now+7200", "now+7201"}
 RtTime    == PlainTime \cup {"p+1200", "p+1201"}
 
@@ -335,6 +335,9 @@ BitsTerm(c, d) ==
       [] d.bits = "unclamped" -> IF H(c) % Interval # 0 THEN r
                                  ELSE IF RawSpan(c) <= 0 THEN <<-4>>     \* base * span / T for span <= 0: no positive target
                                  ELSE Norm(Append(RetargetBase(c, H(c)), RawSpan(c)))
+      \* the targets the two clamp values give (what a timespan computed in the wrong domain ends up with)
+      [] d.bits = "minclamp"  -> IF H(c) % Interval # 0 THEN r ELSE Norm(Append(RetargetBase(c, H(c)), T \div 4))
+      [] d.bits = "maxclamp"  -> IF H(c) % Interval # 0 THEN r ELSE Norm(Append(RetargetBase(c, H(c)), 4 * T))
       [] d.bits = "otherbase" -> IF H(c) % Interval = 0
                                  THEN Norm(Append(IF c.net = "test4" THEN BitsAt(c, c.P) ELSE BitsAt(c, H(c) - Interval), Clamp(RawSpan(c))))
                                  ELSE r
